@@ -6,7 +6,7 @@ from persim import bottleneck, wasserstein
 
 from ..core import Clause, close
 from ..oracles import matching as M
-from ..strategies import diagram_family
+from ..strategies import diagram_family, valid_family
 from ._dist import EMPTY_FORMS, as_input, call_quiet, coord_scale, pair_labels
 
 HASHSEEDS = "vary"
@@ -101,3 +101,9 @@ CLAUSES = [
     Clause("wasserstein_matching", s_pairs, make_check("w"), quick=8000, thorough=100000, floors={"rows:cross+diag": 0.1},
            rule=_rule % "sum"),
 ]
+
+
+def VALID_DEFAULT(case):
+    if "fam" in case:
+        return valid_family(case["fam"])
+    return all(p[1] >= p[0] for p in case["A"] + case["B"])
